@@ -144,7 +144,7 @@ Theorem C13w_RemoveE1_of_clean : forall w h r tb ts,
   IndexE1 w -> PendClean (w_env w) -> RemoveE1 w.
 Proof. exact RemoveE1_of_clean. Qed.
 
-(** * 4. the index update of C19 is a tree of at most 32 messages (so that it still fits the
+(** * 4. the index update of C19 is a tree of at most 40 messages (so that it still fits the
     transaction's fuel after the removal's own messages) *)
 Theorem C13w_ugi_exec : forall w sender h r dp g tb ts,
   Wired w -> RewardWired w -> RewardsToDispatcher w -> IndexWiring w -> StubsOk (w_env w) ->
@@ -154,7 +154,7 @@ Theorem C13w_ugi_exec : forall w sender h r dp g tb ts,
   (forall w1, pre_dispatch w sender = Some w1 ->
      bal (w_env w1) A_disp (dp_bd dp) <= LIM /\ bal (w_env w1) A_disp usei <= LIM /\
      ~ Known_F2 (dp_rate dp) (bal (w_env w1) A_disp (dp_bd dp)) (bal (w_env w1) A_disp usei)) ->
-  exists w' n, Exec w [(sender, root_msg)] w' n /\ (n <= 32)%nat.
+  exists w' n, Exec w [(sender, root_msg)] w' n /\ (n <= 40)%nat.
 Proof. exact ugi_exec. Qed.
 
 (** * 5. THE THEOREM.  For every world [w] satisfying the hypotheses of C19 (for the sender A_reg) and
